@@ -105,6 +105,10 @@ class C01(Prop):
         for unit in ['..a\n', '""q\n', '..a\n""b\n', '- x\n..\n', '- x\n\n  > - y\n..\n', '.+container\npara\n..k\n']:
             for n, m in [(40, 1), (600, 1), (big, 0)]:
                 out.append({'steps': [{'src': unit * n, 'safeMode': m, 'reset': True, 'callback': True}], 'stress': True})
+        # F51: a run of one quote character (every further closing character nests the quoted text one level deeper)
+        for unit in ['*', '_', '~', '**', '__', '`', '*a', '= ', '"']:
+            out.append({'steps': [{'src': unit * (big * 3), 'safeMode': 1, 'reset': True, 'callback': True}], 'stress': True})
+            out.append({'steps': [{'src': 'x ' + unit * 240 + ' y', 'safeMode': 0, 'reset': True, 'callback': True}], 'stress': True})
         q = ['*', '_', '~~', '**', '__']
         s = 'x'
         for i in range(depth):
@@ -151,6 +155,9 @@ class C01(Prop):
                 steps.append({'src': clean(gen.any_source(rng, ctx.repo)), 'safeMode': rng.choice(self.MODES),
                               'reset': rng.choice(self.RESETS), 'htmlReplacement': rng.choice(self.REPLS), 'callback': True})
             yield {'steps': steps}
+
+    def lead(self, case, ctx, res):
+        self.execute(case, ctx, res)
 
     def execute(self, case, ctx, res):
         steps = case['steps']
@@ -240,6 +247,12 @@ class C03(Prop):
                     st['htmlReplacement'] = rng.choice([None, None, '[R]', '', 'R D'])
                 steps.append(st)
             yield {'steps': steps}
+
+    def lead(self, case, ctx, res):
+        # (the statement is about renders that start from default definitions in a mode with a non-zero HTML policy)
+        st = case['steps']
+        if st and st[0].get('reset') and all(isinstance(x.get('safeMode'), int) and x['safeMode'] & 3 for x in st):
+            self.execute(case, ctx, res)
 
     def execute(self, case, ctx, res):
         outs_i, outs_m, ok = run_session(ctx, case['steps'], res, case)
@@ -334,6 +347,17 @@ class C04(Prop):
             mode = rng.choice([m for m in range(1, 16)])
             yield {'preamble': pre, 'abandon': rng.random() < 0.1, 'untrusted': {'src': clean('\n'.join(lines)), 'safeMode': mode, 'callback': True},
                    'probe': {'src': clean(gen.document(rng, 1, 2)), 'safeMode': rng.choice([0, mode]), 'callback': True}}
+
+    def lead(self, case, ctx, res):
+        # trusted steps (safe mode 0) first, then the first untrusted one
+        st = case['steps']
+        k = next((n for n, x in enumerate(st) if isinstance(x.get('safeMode'), int) and x['safeMode'] != 0), None)
+        if k is None:
+            return
+        pre = [dict(x, safeMode=0) for x in st[:k]] or [{'src': '', 'safeMode': 0, 'reset': True, 'callback': True}]
+        pre[0]['reset'] = True
+        self.execute({'preamble': pre, 'abandon': False, 'untrusted': dict(st[k], reset=None), 'probe': {'src': 'probe *x*', 'safeMode': 0, 'callback': True}},
+                     ctx, res)
 
     def execute_cli(self, case, ctx, res):
         from .props_cli import CliImpl
@@ -499,6 +523,13 @@ class C05(Prop):
                      'callback': rng.random() < 0.7}
             yield {'history': hist, 'final': final, 'fresh_interpreter': n % (20 if ctx.tier == 'quick' else 40) == 0}
 
+    def lead(self, case, ctx, res):
+        st = case['steps']
+        self.execute({'history': [dict(x) for x in st], 'final': dict(st[-1], reset=True), 'fresh_interpreter': False}, ctx, res)
+        if not res.violations:
+            self.execute({'history': [dict(x) for x in st], 'final': {'src': 'probe *x* {m} <b>\n\n- i\n\n# h', 'safeMode': st[-1].get('safeMode'), 'reset': True,
+                                                                       'callback': True}, 'fresh_interpreter': False}, ctx, res)
+
     def execute(self, case, ctx, res):
         hist, final = case['history'], case['final']
         # history on both sides (outcomes of the history itself are not compared here)
@@ -626,6 +657,14 @@ class C06(Prop):
                 yield {'steps': [{'src': src, 'safeMode': rng.choice(NONZERO_POLICY_MODES), 'reset': True, 'callback': True,
                                   'htmlReplacement': rng.choice([None, '[R]'])}]}
 
+    def lead(self, case, ctx, res):
+        st = case['steps']
+        if len(st) != 1 or not st[0].get('reset'):
+            return
+        m = st[0].get('safeMode') or 0
+        if (m & 3) or (m == 0 and '<' not in st[0]['src'] and '$$' not in st[0]['src']):
+            self.execute(case, ctx, res)
+
     def execute(self, case, ctx, res):
         outs_i, outs_m, ok = run_session(ctx, case['steps'], res, case)
         st = case['steps'][0]
@@ -735,6 +774,13 @@ class C16(Prop):
                     s.insert(rng.randrange(len(s) + 1), rng.choice(gen.RESERVED))
                 b = ''.join(s)
                 yield {'kind': 'reserved', 'a': ''.join(' ' if ord(c) <= 2 else c for c in b), 'b': b, 'safeMode': mode}
+
+    def lead(self, case, ctx, res):
+        st = case['steps']
+        if len(st) != 1 or '\r' in st[0]['src'] or '\n' not in st[0]['src']:
+            return
+        for nl in ('\r\n', '\r'):
+            self.execute({'a': st[0]['src'], 'b': st[0]['src'].replace('\n', nl), 'safeMode': st[0].get('safeMode') or 0, 'kind': 'terminators'}, ctx, res)
 
     def execute(self, case, ctx, res):
         kw = {'safeMode': case['safeMode'], 'reset': True, 'callback': True}
